@@ -3,6 +3,8 @@ import MosnVerif.Model.FrameSteps
 import MosnVerif.Model.Match
 import MosnVerif.Model.FrameSpec
 import MosnVerif.Model.FrameH2
+import MosnVerif.Model.ReadLoop
+import MosnVerif.Model.ReadLoopSpec
 /-! driver of C07 (segmentation independence): see `run` for the case kinds. Core Lean only. -/
 namespace MosnVerif.Drive.C07
 open MosnVerif.Model.FramingS MosnVerif.Model.FrameH2 MosnVerif.Gen.FrameConsts
@@ -168,6 +170,92 @@ def h2cuts (stream lens : String) (impl : List String) : String :=
     s!"{if agree then "A" else "D"} {if spec then "S" else "V"} {firstDiff.getD "all-cuts-agree"}"
   | _, _, _ => "E E bad-case"
 
+/-! ### kind `rl`: the connection read loop -/
+open MosnVerif.Model.ReadLoop (Ev Params St dispatchConsumer toConn)
+open MosnVerif.Gen.ReadLoopConn (CloseEv)
+
+inductive Tok where
+  | r (n : Nat) | t | o (len cap : Nat) | c (k : String) | bad
+deriving DecidableEq
+
+def parseTok (s : String) : Tok :=
+  match s.toList with
+  | ['t'] => .t
+  | 'r' :: rest => match (String.ofList rest).toNat? with | some n => .r n | none => .bad
+  | 'c' :: rest => .c (String.ofList rest)
+  | 'o' :: rest =>
+    match (String.ofList rest).splitOn "." with
+    | [a, b] => (match a.toNat?, b.toNat? with | some x, some y => .o x y | _, _ => .bad)
+    | _ => .bad
+  | _ => .bad
+
+/-- the `ReadOnce` results behind an observed trace (hand-off tokens removed): `r<n>` directly followed by the close
+event `ce` was a read that returned io.EOF, `cx` alone a read error; a close by anyone else ends the trace. -/
+def toEvents (s : Bytes) : Nat → List Tok → Option (List Ev)
+  | _, [] => some []
+  | pos, .r n :: .c "e" :: rest =>
+    let chunk := (s.drop pos).take n
+    if chunk.length != n then none else (toEvents s (pos + n) rest).map (fun l => Ev.eof chunk :: l)
+  | pos, .r n :: rest =>
+    let chunk := (s.drop pos).take n
+    if chunk.length != n then none else (toEvents s (pos + n) rest).map (fun l => Ev.read chunk :: l)
+  | pos, .t :: rest => (toEvents s pos rest).map (fun l => Ev.timeout :: l)
+  | pos, .c "x" :: rest => (toEvents s pos rest).map (fun l => Ev.error :: l)
+  | _, .c _ :: _ => some []
+  | _, _ => none
+
+def closeTok : CloseEv → String
+  | .remoteClose => "ce" | .onReadErrClose => "cx" | .localClose => "cl" | .other => "co"
+
+/-- the trace the model predicts for these `ReadOnce` results, and the final state -/
+def modelTrace (P : Params) (d : Bytes → Step Bytes) (evs : List Ev) : List String × St (List Bytes × Bool) :=
+  evs.foldl (fun (acc : List String × St (List Bytes × Bool)) e =>
+    let s := acc.2
+    if s.closed.isSome then acc else
+    let s' := MosnVerif.Model.ReadLoop.step P (dispatchConsumer d) s e
+    let ob := match MosnVerif.Model.ReadLoop.observe P s e with
+      | some (l, c) => [s!"o{l}.{c}"]
+      | none => []
+    let cl := match s'.closed with | some k => [closeTok k] | none => []
+    let toks := match e with
+      | .read c => [s!"r{c.length}"] ++ ob ++ cl
+      | .eof c => [s!"r{c.length}"] ++ ob ++ cl
+      | .timeout => ["t"] ++ cl
+      | .error => cl
+    (acc.1 ++ toks, s')) ([], St.init ([], false))
+
+/-- `rl|rlnp <proto> <stream> <frame lengths> <default read buffer size, 0 = not configured> <script> =>
+<trace> <frames> <residue> <failed>`: the script (writes and stalls of the peer) is not used by the model: what the read
+loop saw is in the observed trace (`r<n>` read of n bytes, `t` read timeout, `o<len>.<cap>` hand-off of the read buffer
+to the filter, `c<e|x|l|o>` close event).  The model is run on the observed `ReadOnce` results and must reproduce the
+hand-offs (buffered length and capacity), the close, the frames, the residue and the failed flag. -/
+def rl (netpoll : Bool) (proto stream lens dflt : String) (impl : List String) : String :=
+  match frameStepOf proto accept, unhex stream, parseNats lens, dflt.toNat?, impl with
+  | some d, some s, some ls, some df, [tr, fr, res, fl] =>
+    match parseHexList fr, unhex res with
+    | some ifr, some ires =>
+      let toks := (if tr == "-" then [] else tr.splitOn ",").map parseTok
+      let sizes := toks.filterMap (fun tk => match tk with | .r n => some n | _ => none)
+      let spec := MosnVerif.Model.ReadLoopSpec.specReadLoop s ls sizes ifr ires (fl != "0")
+      let sv := if spec then "S" else "V"
+      match toEvents s 0 (toks.filter (fun tk => match tk with | .o _ _ => false | _ => true)) with
+      | none => s!"D {sv} trace-does-not-parse"
+      | some evs =>
+        let dfl : Int := if df == 0 then MosnVerif.Gen.ReadLoopConn.defaultReadBufferSize else (df : Int)
+        -- netpoll mode (kind rlnp): the copies of the statement in the read-timeout timer / event-loop onRead; the timer
+        -- runs on its own goroutine, so the position of `t` among the other tokens is not exact: contents only.  An observed
+        -- `t` is the timer callback: the first copy in source order (the second one, in the event loop's onRead, needs a
+        -- deadline error from a read that epoll announced as readable)
+        let P : Params := if netpoll then { network := "tcp", dflt := dfl, shrinks := MosnVerif.Gen.ReadLoopConn.netpollShrinks.take 1 }
+          else Params.actual dfl
+        let m := modelTrace P d evs
+        let c := toConn m.2
+        let mt := if m.1.isEmpty then "-" else joinWith "," m.1
+        let agree := (netpoll || mt == tr) && c.out == ifr && c.buf == ires && flag c.failed == fl
+        s!"{if agree then "A" else "D"} {sv} {mt} {hexList c.out} {hex c.buf} {flag c.failed}"
+    | _, _ => "E E bad-impl"
+  | _, _, _, _, _ => "E E bad-case"
+
 def run (caseToks impl : List String) : String :=
   match caseToks with
   | ["seg", proto, stream, lens, chunks] => seg proto stream lens chunks impl
@@ -176,6 +264,8 @@ def run (caseToks impl : List String) : String :=
   | ["select", scope, stream, maxp] => selectK scope stream maxp impl
   | ["h2seg", stream, lens, chunks] => h2seg stream lens chunks impl
   | ["h2cuts", stream, lens] => h2cuts stream lens impl
+  | ["rl", proto, stream, lens, dflt, _script] => rl false proto stream lens dflt impl
+  | ["rlnp", proto, stream, lens, dflt, _script] => rl true proto stream lens dflt impl
   | _ => "E E unknown-kind"
 
 end MosnVerif.Drive.C07
